@@ -38,7 +38,7 @@ LEVEL_TEXT = (
 )
 LEVEL_NOTE = "Trusts the dump (all per-step logs, time, costs, status) and the hash-controlled subclasses."
 
-CFG = gen.Cfg(onesided=4, 
+CFG = gen.Cfg(onesided=4, servable=3, 
     facilities=True,
     kinds=[0, 0, 1, 2, 2, 3, 3],
     tie_rich=2,
